@@ -239,6 +239,10 @@ func (qc QuorumCert) ToBytes() []byte {
 	b = append(b, qc.hash[:]...)
 	if qc.signature != nil {
 		b = append(b, qc.signature.ToBytes()...)
+		// the signers are part of the certificate: the bytes of the signature alone do not say who signed
+		qc.signature.Participants().ForEach(func(id ID) {
+			b = binary.LittleEndian.AppendUint32(b, uint32(id))
+		})
 	}
 	return b
 }
